@@ -97,7 +97,7 @@ var c12nonPath = []string{"image", "command", "entrypoint", "working_dir", "user
 func (c12) Run(c *core.Ctx) {
 	home, _ := os.UserHomeDir()
 	attrs := c12attrs()
-	origins := []string{"main", "override", "include1", "include2", "extends-otherdir", "extends-in-include", "extends-shared", "extends-prefix-sibling", "include-prefix-sibling"}
+	origins := []string{"main", "override", "include1", "include2", "extends-samefile", "extends-samefile-in-include", "extends-otherdir", "extends-in-include", "extends-shared", "extends-prefix-sibling", "include-prefix-sibling"}
 	wds := []string{"proj", "proj dir", "nested/deep/proj"}
 	for _, a := range attrs {
 		for _, sh := range c12shapes {
@@ -277,6 +277,19 @@ func c12case(id string, a c12attr, sh c12shape, origin, wd string, resolve bool,
 		files[wd+"/sub/inc.yaml"] = "include:\n  - path: ./deep/inc2.yaml\nservices:\n  mid: {image: m}\n"
 		files[wd+"/sub/deep/inc2.yaml"] = svcDoc
 		originDir = wd + "/sub/deep"
+	case "extends-samefile", "extends-samefile-in-include":
+		// base and extending service in one file: both carry the attribute, each resolved once
+		if top != "" {
+			return core.Outcome{Class: "na", Trivial: true}
+		}
+		doc := "services:\n  b:\n" + body + "  s:\n    extends: {service: b}\n"
+		if origin == "extends-samefile" {
+			files[wd+"/compose.yaml"] = doc
+		} else {
+			files[wd+"/compose.yaml"] = "include:\n  - ./sub/inc.yaml\nservices:\n  other: {image: o}\n"
+			files[wd+"/sub/inc.yaml"] = doc
+			originDir = wd + "/sub"
+		}
 	case "extends-otherdir":
 		if top != "" {
 			return core.Outcome{Class: "na", Trivial: true}
@@ -371,6 +384,12 @@ func c12case(id string, a c12attr, sh c12shape, origin, wd string, resolve bool,
 	var got string
 	if perr := core.Try(func() error { got = a.get(p); return nil }); perr != nil {
 		return core.Outcome{Class: "shape", Sample: sample, Viol: &core.Violation{Key: "attribute-missing:" + a.name, Msg: id + ": the attribute is not where expected in the project: " + perr.Error()}}
+	}
+	if strings.HasPrefix(origin, "extends-samefile") && got == expected {
+		// the base service itself
+		q := *p
+		q.Services = types.Services{"s": p.Services["b"], c12pre + "s": p.Services["b"]}
+		core.Try(func() error { got = a.get(&q); return nil })
 	}
 	if origin == "extends-shared" && got == expected {
 		// the second user of the shared base (service s0, extended from the main project)
